@@ -56,6 +56,12 @@ func c09Host(r *rand.Rand) string {
 			parts[i] += gen.Pick(r, c09Good)
 		}
 	}
+	if r.IntN(40) == 0 {
+		// long hosts (hundreds to thousands of bytes): length limits must not depend on the spelling
+		for k := 20 + r.IntN(120); k > 0; k-- {
+			parts = append(parts, gen.Pick(r, []string{"a", "example", "x-y", "a1", "test", "bücher"}))
+		}
+	}
 	sep := "."
 	if r.IntN(12) == 0 {
 		sep = gen.Pick(r, []string{"\uff0e", "\u3002", "\uff61"})
